@@ -6,10 +6,49 @@ import JrpcVerif.Proofs.ClientLemmas
 namespace Jrpc.Client
 open Jrpc
 
-theorem compCount_of_completions_nil (k : Nat) (l : List Effect) (h : completions l = []) : compCount k l = 0 := by
-  induction l with
-  | nil => rfl
-  | cons x xs ih => cases x <;> simp_all [completions, compCount]
+theorem processSubscriptionResponse_compCount (k : Nat) (st : Core) (s : SubId) (p : Text) :
+    compCount k (processSubscriptionResponse st s p).2 = 0 := by
+  unfold processSubscriptionResponse
+  split
+  · rfl
+  · split
+    · rfl
+    · split
+      · rfl
+      · split <;> rfl
+
+theorem processNotification_compCount (k : Nat) (st : Core) (m : Text) (p : Option Text) :
+    compCount k (processNotification st m p).2 = 0 := by
+  unfold processNotification
+  split
+  · rfl
+  · split
+    · rfl
+    · split <;> rfl
+
+theorem arrayLoop_compCount (k : Nat) (es : List Text) : ∀ (acc acc' : ArrAcc) (f : Option Fatal), arrayLoop acc es = (acc', f) →
+    compCount k acc'.effs = compCount k acc.effs := by
+  induction es with
+  | nil => intro acc acc' f h; simp [arrayLoop] at h; rw [h.1]
+  | cons e rest ih =>
+    intro acc acc' f h
+    rw [arrayLoop] at h
+    cases hc : classifyIncoming e with
+    | response r =>
+      simp only [hc] at h
+      cases hid : idNum r.id with
+      | none => simp [hid] at h; rw [h.1]
+      | some id => simp only [hid] at h; have := ih _ _ _ h; exact this
+    | garbage => simp [hc] at h; rw [h.1]
+    | subNotif s p =>
+      simp only [hc] at h
+      rw [ih _ _ _ h]
+      simp [compCount_append, processSubscriptionResponse_compCount]
+    | subClose s => simp only [hc] at h; have := ih _ _ _ h; exact this
+    | notif m p =>
+      simp only [hc] at h
+      rw [ih _ _ _ h]
+      simp [compCount_append, processNotification_compCount]
 
 /-- messages the read task queues for the send task never carry a ticket -/
 def NoTicketMsgs (effs : List Effect) : Prop := ∀ m ∈ queuedMsgs effs, msgOp m = none
@@ -154,7 +193,8 @@ theorem processNotification_count (k : Nat) (st : Core) (m : Text) (p : Option T
 
 theorem abandonedSubscribe_count (k : Nat) (st : Core) (c : ChanId) (rid : Id) (s : SubId) (t : Ticket) :
     coreCount k (abandonedSubscribe st c rid s t).1 ≤ coreCount k st ∧
-    compCount k (abandonedSubscribe st c rid s t).2 = 0 ∧ NoTicketMsgs (abandonedSubscribe st c rid s t).2 := by
+    compCount k (abandonedSubscribe st c rid s t).2 = (if t.op = k then 1 else 0) ∧
+    NoTicketMsgs (abandonedSubscribe st c rid s t).2 := by
   unfold abandonedSubscribe
   split
   · rename_i st' msg h
@@ -163,7 +203,7 @@ theorem abandonedSubscribe_count (k : Nat) (st : Core) (c : ChanId) (rid : Id) (
     intro m hm
     simp [queuedMsgs] at hm
     rw [hm]; exact h2
-  · exact ⟨by simp [coreCount, Core.modChan], by simp [compCount], noTicket_nil⟩
+  · exact ⟨by simp [coreCount, Core.modChan], by simp [compCount], by intro m hm; simp [queuedMsgs] at hm⟩
 
 theorem newChan_mgr (st : Core) (o : Owner) (op : Nat) : (st.newChan o op).1.mgr = st.mgr := rfl
 
@@ -357,8 +397,7 @@ theorem handleArray_count (k : Nat) (st : Core) (es : List Text) :
   cases hl : arrayLoop { st := st } es with
   | mk acc f =>
     have hcomp : compCount k acc.effs = 0 := by
-      apply compCount_of_completions_nil
-      rw [arrayLoop_completions es _ _ _ hl]; rfl
+      rw [arrayLoop_compCount k es _ _ _ hl]; rfl
     obtain ⟨hcore, hnt⟩ := arrayLoop_count k es _ _ _ hl
     have hnt' := hnt noTicket_nil
     simp only at hcore
@@ -405,16 +444,15 @@ theorem handleSingle_count (k : Nat) (st : Core) (raw : Text) :
   | subNotif s p =>
     obtain ⟨h1, _, h3⟩ := processSubscriptionResponse_frame st s p
     refine ⟨?_, processSubscriptionResponse_noTicket st s p⟩
-    simp only [compCount_of_completions_nil k _ h3, coreCount, h1]
+    simp only [processSubscriptionResponse_compCount, coreCount, h1]
     omega
   | subClose s =>
     have := processSubscriptionClose_count k st s
     exact ⟨by simp only [compCount]; omega, noTicket_nil⟩
   | notif m p =>
-    have h3 := (processNotification_frame st m p).2.2
     have := processNotification_count k st m p
     refine ⟨?_, processNotification_noTicket st m p⟩
-    simp only [compCount_of_completions_nil k _ h3]
+    simp only [processNotification_compCount]
     omega
 
 theorem handleBack_count (k : Nat) (st : Core) (raw : Text) :
@@ -511,7 +549,7 @@ theorem handleFront_count (k : Nat) (st : Core) (msg : FrontMsg) :
         · simp only [hal, if_true]
           exact ⟨by simp only [coreCount, compCount, msgOp, Core.newChan, Option.some.injEq]; omega, rfl⟩
         · simp only [hal]
-          exact ⟨by simp [coreCount, compCount, msgOp, Core.newChan, Core.modChan], rfl⟩
+          exact ⟨by simp only [coreCount, compCount, msgOp, Core.newChan, Core.modChan, Option.some.injEq, Bool.false_eq_true, if_false]; omega, rfl⟩
     | none =>
       have := compCount_completeIfAlive k st t .alreadyRegistered
       exact ⟨by simp only [msgOp, Option.some.injEq]; omega, queuedMsgs_completeIfAlive _ _ _⟩
